@@ -122,4 +122,7 @@ def build(E):
     spec.keep = lambda name: old_keep(name) or "MiddlewareChain" in name or "component.process_request" in name
     spec.trusted += ["components' outcomes are arbitrary (allow / refuse with or without a response line / raise any Exception): uninterpreted functions of their position",
                      "R1 + E1 for the protocol part; wiring in start_server decided structurally on the AST"]
+    # fingerprint provenance: which certificate, and which function of it (contracts/cert_funcs.py)
+    from contracts import cert_funcs
+    cert_funcs.add_targets(E, spec, "C04", which=("fingerprint", "peer"))
     return spec
